@@ -53,6 +53,42 @@ def for_loops(root):
                 break
 
 
+def explicit_exits(body, crate=None):
+    """`break` / `return` written in a loop body: not the `None => break` of a nested `for` loop's desugaring, not the
+    `return from_residual(..)` of a `?`, and nothing inside a closure"""
+    skip = set()
+    for n in walk(body):
+        if n.get("k") == "Match" and n.get("src") == "ForLoopDesugar":
+            for a in n["arms"]:
+                b = strip(a["body"])
+                if b.get("k") == "Break":
+                    skip.add(id(b))
+            # the inner `match next() { None => break, Some(..) => .. }` sits below the outer binding arm
+            for y in walk(n):
+                if y.get("k") == "Match" and y is not n:
+                    for a in y["arms"]:
+                        b = strip(a["body"])
+                        if b.get("k") == "Break" and a["pat"].get("k") in ("Path", "TupleStruct", "Struct") and not (a["pat"].get("pats") or a["pat"].get("fields")):
+                            skip.add(id(b))
+                    break
+
+    def rec(n):
+        if n.get("k") == "Closure":
+            return
+        if n.get("k") in ("Break", "Ret") and id(n) not in skip:
+            e = peel_refs(n["e"]) if n.get("k") == "Ret" and n.get("e") is not None else None
+            is_try = False
+            if e is not None and e.get("k") == "Call" and strip(e["f"]).get("k") == "Path" and crate is not None:
+                is_try = (crate.dfn(strip(e["f"]).get("def")) or {}).get("name") == "from_residual"
+            if not is_try:
+                yield n
+        from .facts import children
+        for ch in children(n):
+            for z in rec(ch):
+                yield z
+    return list(rec(body))
+
+
 def tuple_positions(pat):
     """{local: position path} of the bindings of a (possibly nested) tuple pattern, e.g. (word, (x, freq)) -> word:(0,), x:(1,0), freq:(1,1)"""
     out = {}
@@ -687,6 +723,59 @@ def rule_ngrams(ctx):
     return res.finish(1)
 
 
+def rule_lookupall(ctx):
+    """Counting looks every n-gram of the document up in the vocabulary.  The vocabulary is *filtered* (stop words, document
+    frequency window, feature cap, user-given lists): a shorter n-gram that is not an entry says nothing about the longer
+    ones that start at the same token, so the lookup loops have no early exit."""
+    res = RuleResult("R-C17-lookupall", "the lookup loops of analyze_document visit every n-gram (no break / return inside them)")
+    F = ctx.facts()
+    fns = find(F, "analyze_document")
+    if not fns:
+        res.missing_anchor("CountVectorizer::analyze_document")
+    for fn in fns:
+        key = fn_key(fn)
+        n = 0
+        for it, pat, body, node in for_loops(fn["body"]):
+            if not any(y.get("k") == "MethodCall" and y["name"] == "get" for y in walk(body)):
+                continue
+            n += 1
+            res.instance("%s : lookup loop at line %s" % (key, node.get("ln")))
+            early = next(iter(explicit_exits(body, fn["crate"])), None)
+            if early is not None:
+                res.violate("%s : lookup-loop-left-early" % key, "the loop over the n-grams is left with `%s`: the n-grams after that point are not counted although they may be vocabulary entries (a filtered vocabulary can hold `a b` without holding `a`)" % early["k"].lower(), fn_loc(fn, early.get("ln")))
+            else:
+                res.ok()
+        if not n:
+            res.instance("%s : lookup loops" % key)
+            res.undecided("%s : lookup-loops" % key, "no loop with a vocabulary lookup (fail closed)", fn_loc(fn))
+    # the relative document frequency is the correctly rounded quotient count / n: the product with a reciprocal is rounded
+    # twice and differs from it by an ulp for particular (count, n) - entries exactly on an inclusive bound are then dropped
+    for fn in find(F, "filter_vocabulary"):
+        c = fn["crate"]
+        key = fn_key(fn)
+        res.instance("%s : relative frequency is a quotient" % key)
+        inits = {}
+        for y in walk(fn["body"]):
+            if y.get("k") == "LetStmt" and y.get("init") is not None and y["pat"].get("k") == "Bind":
+                inits[y["pat"]["local"]] = y["init"]
+        recips = set()
+        for loc, ini in inits.items():
+            i0 = peel_refs(ini)
+            if i0.get("k") == "Binary" and i0["op"] == "/" and peel_refs(i0["l"]).get("k") == "Lit" and str(peel_refs(i0["l"]).get("v")).rstrip(".0f3264_") == "1":
+                recips.add(loc)
+            if i0.get("k") == "MethodCall" and i0["name"] == "recip":
+                recips.add(loc)
+        bad = None
+        for y in walk(fn["body"]):
+            if y.get("k") == "Binary" and y["op"] == "*" and (peel_refs(y["l"]).get("local") in recips or peel_refs(y["r"]).get("local") in recips):
+                bad = y
+        if bad is not None:
+            res.violate("%s : frequency-through-reciprocal" % key, "`%s`: the relative frequency is a product with a precomputed reciprocal - rounded twice, so for particular (count, n) it is an ulp away from count / n and an entry exactly on an inclusive bound (9 of 10 documents, maximum 0.9) is dropped" % Render(c).e(bad)[:50], fn_loc(fn, bad.get("ln")))
+        else:
+            res.ok()
+    return res.finish(2)
+
+
 def rule_regexfresh(ctx):
     """The tokeniser that `fit` uses is the compiled form of the expression that is configured *now*.  The compiled form lives
     in a cell beside the expression string and `tokenizer(..)` replaces only the string, so the check has to recompile on
@@ -736,7 +825,7 @@ def rule_regexfresh(ctx):
 
 def rules(tier):
     from . import carry, c04, iteroverride
-    return [iteroverride.make_rule("R-C17-iter", {CRATE}, 1, "linfa-preprocessing (the n-gram walk)"), rule_regexfresh, rule_views, rule_ngrams, rule_pipeline, rule_docfreq, rule_window, rule_reindex, rule_lookup, rule_row, rule_tfidf,
+    return [rule_lookupall, iteroverride.make_rule("R-C17-iter", {CRATE}, 1, "linfa-preprocessing (the n-gram walk)"), rule_regexfresh, rule_views, rule_ngrams, rule_pipeline, rule_docfreq, rule_window, rule_reindex, rule_lookup, rule_row, rule_tfidf,
             carry.make_clone_rule("R-C17-clone", {CRATE}, 8), carry.make_setter_rule("R-C17-override", {CRATE}, 4),
             c04.make_carry_rule("R-C17-carry", {"CountVectorizerParams"}, 4), c04.make_setter_value_rule("R-C17-setter", {"CountVectorizerParams", "TfIdfVectorizer"}, 6),
             carry.make_accessor_rule("R-C17-accessor", {"linfa_preprocessing"}, 6), carry.make_ctor_rule("R-C17-ctor", {"linfa_preprocessing"}, 2)]
